@@ -15,5 +15,8 @@ func TestFamily(t *testing.T) {
 	famCbGas(r, o)
 	famCbProcess(r, o)
 	famIcaHost(t, r, o)
+	famIcaChan(t, r, o)
+	famGmpHist(t, r, o)
+	famCbMw(t, r, o)
 	t.Logf("records=%d", o.Count())
 }
